@@ -37,6 +37,7 @@ type SchemaSpec struct {
 	IsType bool // meant to be added to roots (still a full Schema object)
 	Ext    bool // entry of the root-kind extension (pool_roots.go): in AllRoots() only, so that x/c12 keeps its pool
 	Bind   bool // entry of the binding family (pool_bind.go): in BindRoots() only
+	Keys   bool // entry of the keys family (pool_keys.go; marked Ext and Bind as well): in KeyRoots() only
 }
 
 // UsesAllOf: the text carries an allOf rule (such an object is rewritten in
@@ -121,6 +122,7 @@ func init() {
 	initBasePool()
 	initRootKinds()
 	initBindFamily()
+	initKeysFamily() // after the binding family: its documents are appended to DocsB
 	badDocs = malformedDocs()
 }
 
